@@ -196,11 +196,12 @@ def klass_of(spec, clause=""):
     gb = any(l[0] == "b" for l in lines[:k])
     gc = any(l[0] == "c" for l in lines[:k])
     gaps = ("b" if gb else "") + ("c" if gc else "") or "none"
-    kl = "A=%s;tail=%s;rows=%s;cols=%s;gaps=%s;eol=%s;fnl=%s;chan=%s;resniff=%d;big=%d" % (
+    first_data = next(i for i, l in enumerate(lines) if l[0] == "d")
+    kl = "A=%s;tail=%s;rows=%s;cols=%s;gaps=%s;eol=%s;fnl=%s;chan=%s;resniff=%d;big=%d;late=%d" % (
         "last" if not spec["post"] else "before-" + spec["post"][0],
         tail, "1" if nrow == 1 else "n", "1" if ncol == 1 else "n", gaps,
         "lf" if spec["eol"] == "\n" else "crlf", ("%d" % spec["fnl"]) if not spec["post"] else "-", spec["chan"],
-        int(hyphen_census_balanced(spec)), int(len(lines) > 21))
+        int(hyphen_census_balanced(spec)), int(len(lines) > 21), int(first_data >= 21))
     if "values" in clause or "nan" in clause:
         dl = [l for l in lines if l[0] == "d"]
         tab = any("\t" in sp for l in dl for sp in l[3]) or any("\t" in l[2] or "\t" in l[4] for l in dl)
@@ -522,6 +523,18 @@ def edge_specs(tier="thorough"):
                                      "a_title": "~A", "eol": eol, "fnl": fnl, "chan": "str", "spell": "plain",
                                      "vers": "2.0", "src": "edge"})
 
+    # long runs of blank/comment lines before the first data line (the first data line is, or is not, among the
+    # first 21 body lines)
+    for lead in ("b" * 20, "b" * 21, "c" * 25, "bc" * 11, "w" * 22, "cb" * 10):
+        for (r, c) in ((2, 2), (1, 3), (3, 1)):
+            for post in ([], ["P"]):
+                for tail in ("", "b"):
+                    toks = make_tokens(rng, r, c, "plain", "-999.25")
+                    lines = [gap_line(rng, k) for k in lead] + [["d", i, "", [" "], ""] for i in range(r)] + [gap_line(rng, k) for k in tail]
+                    yield normalise({"tokens": toks, "lines": lines, "null": "-999.25", "pre": [], "post": post,
+                                     "a_title": "~A", "eol": "\n", "fnl": True, "chan": "str", "spell": "plain",
+                                     "vers": "2.0", "src": "edge"})
+
 
 # ----------------------------------------------------------------------------
 
@@ -677,7 +690,7 @@ def build_run(tier, seed):
     run.notes.append("klass axes: A placement (last / kind of the section that follows), kind of the last line of the ~A body, "
                      "rows 1/n, cols 1/n, blank(b)/comment(c) lines before the last data line, line end, final newline (only when ~A "
                      "is last), channel, resniff (hyphen census of the sniffed lines balanced -> lasio sniffs the section twice), "
-                     "big (more than 21 body lines); spelling/tab/padding axes are appended for the value clauses only")
+                     "big (more than 21 body lines), late (no data line among the first 21 body lines); spelling/tab/padding axes are appended for the value clauses only")
     run.notes.append("workers=%d" % nproc)
     return run
 
